@@ -125,10 +125,11 @@ class Probe:
 
 
 class In:
-    def __init__(self, name, mapping, body):
+    def __init__(self, name, mapping, body, prefix=None):
         self.name = name
         self.mapping = mapping
         self.body = body
+        self.prefix = prefix      # prefix=P: P_item / P_index / P_number (canonical 'P~item' ...)
 
 
 class With:
@@ -164,53 +165,153 @@ class Try:
         self.handler = handler
 
 
-def to_dtml(ast, syntax='html'):
+# ------------------------------------------------------------------ spelling of names
+STYLES = ['lower', 'capital', 'upper', 'mixed', 'lowds', 'long', 'twins']
+# <dtml-x n>...</dtml-x> | <!--#x n-->...<!--#/x--> | <dtml-x name=n> / <dtml-x name="n"> (the
+# attribute the bare name is the documented shorthand of), alternating
+SYNTAXES = ['html', 'old', 'named']
+_LONG_TAIL = '_LongTailOfA_Name_0123456789_abcdefghijklmnopqrstuvwxyz_ABCDEFGHIJKLMNOPQRSTUVWXYZ'
+_TWIN_WORD = 'identifier'
+_LEGAL_NAME = re.compile(r'[A-Za-z][A-Za-z0-9_]*\Z')
+
+
+class Spelling:
+    """How the canonical (lower-case) names of the generator are spelled in front of the
+    engine: in the template source, as keyword arguments, mapping keys, client attributes,
+    construction defaults and template variables.  The model keeps working on the canonical
+    names; a spelling is an injective map, so the namespace relations are unchanged -- names
+    are just names (the statement gives them no structure), whatever their case, length,
+    digits or underscores.  Style `twins` spells ALL names of a case as case variants of one
+    word, so every two names differ only in case.  Names the engine itself defines
+    (sequence-*, error_*) and the probe helper keep their spelling; 'P~item' is the alias
+    P_item that <dtml-in prefix=P> defines."""
+
+    def __init__(self, style='lower'):
+        if isinstance(style, int):
+            style = STYLES[style]
+        if style not in STYLES:
+            raise ModelError('unknown spelling style %r' % (style,))
+        self.style = style
+        self.memo = {}
+        self.used = {}
+        self.twins = 0
+
+    def __call__(self, name):
+        hit = self.memo.get(name)
+        if hit is not None:
+            return hit
+        if '~' in name:
+            base, suffix = name.split('~', 1)
+            out = self(base) + '_' + suffix
+        elif name == 'seen' or name.startswith('sequence-') or name.startswith('error_'):
+            out = name
+        else:
+            out = self._spell(name)
+            if not _LEGAL_NAME.match(out):
+                raise ModelError('illegal spelling %r of %r' % (out, name))
+        if self.used.setdefault(out, name) != name:
+            raise ModelError('spelling %r of %r is taken by %r' % (out, name, self.used[out]))
+        self.memo[name] = out
+        return out
+
+    def _spell(self, name):
+        st = self.style
+        if st == 'lower':
+            return name
+        if st == 'capital':
+            return name[:1].upper() + name[1:]
+        if st == 'upper':
+            return name.upper()
+        if st == 'mixed':       # mixed case with a digit and underscores inside
+            body = ''.join(c.upper() if i % 2 else c.lower() for i, c in enumerate(name))
+            return '%s_%dx%s' % (body, len(name), name[:1].upper())
+        if st == 'lowds':       # no upper-case letter: digits and underscores only
+            return '%s_0_v%d' % (name.lower(), len(name))
+        if st == 'long':
+            return name + _LONG_TAIL
+        # twins: the k-th name of the case is the k-th case pattern of one word
+        k = self.twins
+        self.twins += 1
+        if k >= 1 << len(_TWIN_WORD):
+            raise ModelError('too many names for the twins spelling')
+        return ''.join(c.upper() if k >> i & 1 else c for i, c in enumerate(_TWIN_WORD))
+
+
+IDENTITY = Spelling('lower')
+
+
+def to_dtml(ast, syntax='html', sp=None):
+    sp = sp or IDENTITY
+    toggle = [0]
+
+    def nm(name):
+        """The name argument of a tag."""
+        name = sp(name)
+        if syntax != 'named':
+            return name
+        toggle[0] += 1
+        return ('name=%s' if toggle[0] % 2 else 'name="%s"') % name
+    if syntax == 'old':
+        def opn(tag, args=''):
+            return '<!--#%s%s-->' % (tag, args and ' ' + args)
+
+        def cls(tag):
+            return '<!--#/%s-->' % tag
+    else:
+        def opn(tag, args=''):
+            return '<dtml-%s%s>' % (tag, args and ' ' + args)
+
+        def cls(tag):
+            return '</dtml-%s>' % tag
     out = []
     for n in ast:
         if isinstance(n, Text):
             out.append(n.s)
         elif isinstance(n, Probe):
             o, c = '()' if n.paren else '[]'
+            name = sp(n.name)
             if syntax == 'epfs':
                 if n.form == 'name':
-                    out.append('%s%%(%s)s%s' % (o, n.name, c))
+                    out.append('%s%%(%s)s%s' % (o, name, c))
                 elif n.form == 'miss':
-                    out.append('%s%%(%s missing="-")s%s' % (o, n.name, c))
+                    out.append('%s%%(%s missing="-")s%s' % (o, name, c))
                 else:
                     raise ModelError('no EPFS form for ' + n.form)
             elif n.form == 'name':
-                out.append('%s<dtml-var %s>%s' % (o, n.name, c))
+                out.append(o + opn('var', nm(n.name)) + c)
             elif n.form == 'entity':
-                out.append('%s&dtml-%s;%s' % (o, n.name, c))
+                out.append('%s&dtml-%s;%s' % (o, name, c))
             elif n.form == 'miss':
-                out.append('%s<dtml-var %s missing="-">%s' % (o, n.name, c))
+                out.append(o + opn('var', '%s missing="-"' % nm(n.name)) + c)
             elif n.form == 'expr':
-                out.append('%s<dtml-var "seen(%s)">%s' % (o, n.name, c))
+                out.append(o + opn('var', '"seen(%s)"' % name) + c)
             elif n.form == 'call':
-                out.append('<dtml-call %s>' % n.name)
+                out.append(opn('call', nm(n.name)))
             else:
                 raise ModelError(n.form)
-        elif syntax != 'html':
-            raise ModelError('blocks are printed in the HTML syntax only')
+        elif syntax == 'epfs':
+            raise ModelError('blocks are not printed in the EPFS syntax')
         elif isinstance(n, In):
-            out.append('<dtml-in %s%s>%s</dtml-in>'
-                       % (n.name, ' mapping' if n.mapping else '', to_dtml(n.body)))
+            args = nm(n.name) + (' mapping' if n.mapping else '')
+            if n.prefix:
+                args += ' prefix=' + sp(n.prefix)
+            out.append(opn('in', args) + to_dtml(n.body, syntax, sp) + cls('in'))
         elif isinstance(n, With):
             opt = {'inst': '', 'only': ' only', 'mapping': ' mapping'}[n.mode]
-            out.append('<dtml-with %s%s>%s</dtml-with>' % (n.name, opt, to_dtml(n.body)))
+            out.append(opn('with', nm(n.name) + opt) + to_dtml(n.body, syntax, sp) + cls('with'))
         elif isinstance(n, Let):
-            b = ' '.join(('%s=%s' % (a, s)) if f == 'name' else ('%s="%s"' % (a, s))
+            b = ' '.join(('%s=%s' % (sp(a), sp(s))) if f == 'name' else ('%s="%s"' % (sp(a), sp(s)))
                          for a, f, s in n.bindings)
-            out.append('<dtml-let %s>%s</dtml-let>' % (b, to_dtml(n.body)))
+            out.append(opn('let', b) + to_dtml(n.body, syntax, sp) + cls('let'))
         elif isinstance(n, If):
-            mid = ''.join('<dtml-elif %s>%s' % (en, to_dtml(eb)) for en, eb in n.elifs)
-            out.append('<dtml-if %s>%s%s<dtml-else>%s</dtml-if>'
-                       % (n.name, to_dtml(n.body), mid, to_dtml(n.orelse)))
+            mid = ''.join(opn('elif', nm(en)) + to_dtml(eb, syntax, sp) for en, eb in n.elifs)
+            out.append(opn('if', nm(n.name)) + to_dtml(n.body, syntax, sp) + mid + opn('else')
+                       + to_dtml(n.orelse, syntax, sp) + cls('if'))
         elif isinstance(n, Unless):
-            out.append('<dtml-unless %s>%s</dtml-unless>' % (n.name, to_dtml(n.body)))
+            out.append(opn('unless', nm(n.name)) + to_dtml(n.body, syntax, sp) + cls('unless'))
         elif isinstance(n, Try):
-            out.append('<dtml-try>%s<dtml-except>%s</dtml-try>'
-                       % (to_dtml(n.body), to_dtml(n.handler)))
+            out.append(opn('try') + to_dtml(n.body, syntax, sp) + opn('except')
+                       + to_dtml(n.handler, syntax, sp) + cls('try'))
         else:
             raise ModelError(repr(n))
     return ''.join(out)
@@ -362,6 +463,9 @@ class Model:
                 for i, item in enumerate(seq.items):
                     svars = {'sequence-item': item, 'sequence-index': Plain(i),
                              'sequence-number': Plain(i + 1)}
+                    if n.prefix:
+                        for suffix in ('item', 'index', 'number'):
+                            svars['%s~%s' % (n.prefix, suffix)] = svars['sequence-' + suffix]
                     out.extend(self.render(n.body, stack + [svars, self.scope_of(item)]))
             elif isinstance(n, With):
                 scope = self.scope_of(self.resolve(stack, n.name))
@@ -521,9 +625,11 @@ class CustomMapping:
 class Realizer:
     """spec -> the object handed to the real engine (one object per spec instance)."""
 
-    def __init__(self, rec, tmpl_class):
+    def __init__(self, rec, tmpl_class, sp=None, syntax='html'):
         self.rec = rec
         self.tmpl_class = tmpl_class
+        self.sp = sp or IDENTITY
+        self.syntax = syntax
         self.memo = {}
         self.registry = []
 
@@ -552,23 +658,23 @@ class Realizer:
             ob = RRaise(self.rec, spec.name, spec.etype, spec.msg)
             reg = 'obj:' + spec.name
         elif isinstance(spec, Tmpl):
-            ob = self.tmpl_class(to_dtml(spec.ast),
-                                 **dict((k, self.real(v)) for k, v in spec.defaults.items()))
+            ob = self.tmpl_class(to_dtml(spec.ast, self.syntax, self.sp),
+                                 **self.real_scope(spec.defaults))
             if spec.tvars:
-                ob.var(**dict((k, self.real(v)) for k, v in spec.tvars.items()))
+                ob.var(**self.real_scope(spec.tvars))
             reg = 'obj:' + spec.name
         elif isinstance(spec, Obj):
             ob = RObj(spec.name)
             self.memo[id(spec)] = (spec, ob)
             for k, v in spec.attrs.items():
-                setattr(ob, k, self.real(v))
+                setattr(ob, self.sp(k), self.real(v))
             reg = 'obj:' + spec.name
         elif isinstance(spec, Map):
             ob = RMap()
             ob._c02name = spec.name
             self.memo[id(spec)] = (spec, ob)
             for k, v in spec.items.items():
-                ob[k] = self.real(v)
+                ob[self.sp(k)] = self.real(v)
             reg = 'obj:' + spec.name
         elif isinstance(spec, Seq):
             ob = [self.real(i) for i in spec.items]
@@ -583,4 +689,4 @@ class Realizer:
         return ob
 
     def real_scope(self, scope):
-        return dict((k, self.real(v)) for k, v in scope.items())
+        return dict((self.sp(k), self.real(v)) for k, v in scope.items())
